@@ -143,6 +143,14 @@ CLAIMED = {
             "hierarchy is read back from the real object; the offending call must raise the documented class, consistent calls must be accepted.",
             "The state after a refused call is not compared; Dom wires requested through builders nested below a block are unspecified.",
             "DESIGN.md §5 C13"),
+    "C12": ("TLA+ spec ModelExport.tla (RegionsMirrorHierarchy, PortsAreValuePorts, LinkPartition, Hyperedge, SymbolsResolve, "
+            "OrderHints, MetadataCarried) evaluated by TLC on pairs (raw wire document, exported model read as the Rust binding reads it) (C->S)",
+            "For 120 (quick) / 1500 module-rooted HUGRs from seeded random well-formed builder programs plus the catalogue, to_model() is "
+            "projected by emulating the binding's attribute reads and TLC decides every conjunct of ExportFaithful against the document; "
+            "the attribute table is extracted from hugr-model/src/v0/ast/python.rs and compared with the dataclass fields; corrupted "
+            "exports must be rejected on the expected clause.",
+            "C->S only (the export has no state to drive); symbols of function definitions nested below the module are not compared.",
+            "DESIGN.md §5 C12"),
 }
 
 NOT_YET = "check not built yet in this round (planned: see DESIGN.md §5); nothing is claimed for it until its TLA+ spec and conformance legs exist"
